@@ -1,0 +1,64 @@
+//go:build verif
+
+// Contracts for govc (comment-only file; see /verif/DESIGN.md section 3).
+// The panics here fire only when the random source keeps failing or rejection sampling fails
+// 255 times in a row (A-RAND); they are assumed unreachable.
+package sample
+
+//@ func mustReadBits
+//@   nopanic[C05]
+//@   requires rand != nil
+//@   panic_unreachable_under_requires
+//@   modifies elems(buf)
+
+//@ func sampleNeg
+//@   nopanic[C05]
+//@   requires rand != nil && bits >= 0
+//@   modifies nothing
+//@   allocates
+//@   ensures result != nil
+
+//@ func ModN
+//@   nopanic[C05]
+//@   requires rand != nil && n != nil
+//@   modifies nothing
+//@   allocates
+//@   ensures result != nil
+
+//@ func UnitModN
+//@   nopanic[C05]
+//@   requires rand != nil && n != nil
+//@   panic_unreachable_under_requires
+//@   modifies nothing
+//@   allocates
+//@   ensures result != nil
+
+//@ func QNR
+//@   nopanic[C05]
+//@   requires rand != nil && n != nil
+//@   panic_unreachable_under_requires
+//@   modifies nothing
+//@   allocates
+//@   ensures result != nil
+
+//@ func Scalar
+//@   nopanic[C05]
+//@   requires rand != nil && group != nil
+//@   modifies nothing
+//@   allocates
+//@   ensures result != nil
+
+//@ func ScalarUnit
+//@   nopanic[C05]
+//@   requires rand != nil && group != nil
+//@   panic_unreachable_under_requires
+//@   modifies nothing
+//@   allocates
+//@   ensures result != nil
+
+//@ func ScalarPointPair
+//@   nopanic[C05]
+//@   requires rand != nil && group != nil
+//@   modifies nothing
+//@   allocates
+//@   ensures result0 != nil && result1 != nil
